@@ -320,7 +320,7 @@ class QuiltWorld(WorldBase):
                             ('q_export', 0.6)])
         op = {'op': what, 'q': qi}
         if what == 'q_attr':
-            op['what'] = ch.choice(['shape', 'size', 'ndim', 'index', 'columns', 'keys', 'contains', 'status', 'repr', 'len_iter', 'nbytes', 'get', 'axis_classes'])
+            op['what'] = ch.choice(['shape', 'size', 'ndim', 'index', 'columns', 'keys', 'contains', 'status', 'repr', 'len_iter', 'nbytes', 'get', 'axis_classes', 'len'])
             op['j'] = ch.randint(0, max(0, nc - 1))
         elif what in ('q_iloc', 'q_loc'):
             op['r'] = self._key(ch, nr, hier=self.retain and self.axis == 0)
@@ -335,6 +335,8 @@ class QuiltWorld(WorldBase):
             op['kind'] = ch.choice(['array', 'series', 'tuple'])
             op['items'] = ch.chance(0.5)
             op['apply'] = ch.chance(0.3)
+        elif what == 'q_export':
+            op['fmt'] = ch.choice(['zip_pickle', 'zip_pickle', 'zip_csv', 'zip_tsv', 'sqlite'])
         elif what == 'q_window':
             op['size'] = ch.randint(1, 3)
             op['kind'] = ch.choice(['frame', 'array'])
@@ -517,6 +519,8 @@ class QuiltWorld(WorldBase):
             return site, {'t': 'element', 'v': nr * nc}, lambda: q.size
         if w == 'ndim':
             return site, {'t': 'element', 'v': 2}, lambda: q.ndim
+        if w == 'len':
+            return site, {'t': 'element', 'v': nr}, lambda: len(q)
         if w == 'index':
             return site, {'t': 'tuple', 'cells': [nlab(x) for x in ref.index]}, lambda: tuple(tuple(x) if isinstance(x, (tuple, np.ndarray)) else x for x in q.index)
         if w in ('columns', 'keys', 'len_iter'):
@@ -776,20 +780,28 @@ class QuiltWorld(WorldBase):
 
     def do_q_export(self, q, op):
         sf = self.sf
+        fmt = op.get('fmt', 'zip_pickle')
         if len(self.quilts) >= 3 or not isinstance(self.members[0]['name'], str):
             return 'Quilt.to_zip_pickle', None, None  # stores need string labels or an encoder
-        path = os.path.join(self.dir, 'export%d.zip' % len(self.quilts))
+        if fmt != 'zip_pickle' and self.date_axis:
+            fmt = 'zip_pickle'  # text formats do not keep the label type (format envelope, not the Quilt's business)
+        if fmt in ('zip_csv', 'zip_tsv') and any(str(x) in ('J', 'j') for m in self.members for x in list(m['columns']) + list(m['index'])):
+            fmt = 'sqlite'  # the delimited reader takes the header label 'J' for the complex number 1j (format envelope, C16)
+        ext = '.sqlite' if fmt == 'sqlite' else '.zip'
+        path = os.path.join(self.dir, 'export%d%s' % (len(self.quilts), ext))
 
         def thunk():
             if os.path.exists(path):
                 os.remove(path)
-            q.to_zip_pickle(path)
-            q2 = sf.Quilt.from_zip_pickle(path, axis=self.axis, retain_labels=self.retain, max_persist=self.mp)
+            getattr(q, 'to_' + fmt)(path)  # no config given: the exporter falls back to the Quilt's own
+            kw = {} if fmt == 'zip_pickle' else {'config': sf.StoreConfig(index_depth=1, columns_depth=1)}
+            q2 = getattr(sf.Quilt, 'from_' + fmt)(path, axis=self.axis, retain_labels=self.retain, max_persist=self.mp, **kw)
             f = q2.to_frame()
-            self.quilts.append((q2, q2._bus))
+            if fmt == 'zip_pickle':
+                self.quilts.append((q2, q2._bus))
             self.probe('export-and-reopen')
             return f
-        return 'Quilt.to_zip_pickle+from_zip_pickle', self._exp_sel({'all': 1}, {'all': 1}), thunk
+        return f'Quilt.to_{fmt}+from_{fmt}', self._exp_sel({'all': 1}, {'all': 1}), thunk
 
     # -- the other actor on the same Bus, and the file system
     def do_bus_access(self, op):
